@@ -1,4 +1,4 @@
-"""C20 -- completion proposals (clauses R20.1-R20.6)."""
+"""C20 -- completion proposals (clauses R20.1-R20.7)."""
 from __future__ import annotations
 
 import ast
@@ -218,3 +218,8 @@ def check(ctx, res) -> None:
                     "the definition is in this module: a name imported from another module whose definition happens to sit on a later line number "
                     "there is taken for a local defined after the cursor and is not offered", function=f.qualname)
     res.floor("R20.6", "definition-line comparisons in the completion engine", n6, 1)
+
+    # ---- R20.7 (=R14.5): the scope that holds a cursor line comes from the logical-line scanner
+    from .c14 import escape_parity_rule
+
+    escape_parity_rule(ctx, res, "R20.7")
